@@ -88,8 +88,17 @@ def actionRes (j : Json) : Option ARes :=
   match jstr j "op" with
   | "py" =>
     match parseRet (jobj j "ret"), bodyOps j with
-    | some r, some ops => some (pyExec (jbool j "kwargsRaise") (pyBody (jbool j "capture") (jbool j "liveFd") ops r))
+    | some r, some ops =>
+      if jbool j "interactive" then
+        -- tools.PythonInteractiveAction: no Writer, the callable sees the caller's stream (capture = false)
+        some (pyInteractiveExec (jbool j "kwargsRaise") (pyBody false (jbool j "liveFd") ops r))
+      else some (pyExec (jbool j "kwargsRaise") (pyBody (jbool j "capture") (jbool j "liveFd") ops r))
     | _, _ => none
+  | "tool" =>
+    match jstr j "cls" with
+    | "LongRunning" => some (longRunningExec (jbool j "expandRaises") (jbool j "interrupt") (jint j "rc"))
+    | "Interactive" => some (interactiveExec (jbool j "expandRaises") (jbool j "interrupt") (jint j "rc"))
+    | _ => none
   | "cmd" =>
     (parseCap (jstr j "cap")).map fun cap =>
       let so : Option Nat := match jobj j "saveOut" with | .null => none | x => some (asNat x)
@@ -200,10 +209,10 @@ def handle (j : Json) : Json :=
   | "py" =>
     match actionRes j, bodyOps j with
     | some a, some ops =>
-      let b := bodyRun (jbool j "capture") (jbool j "liveFd") ops
+      let b := bodyRun (jbool j "capture" && !(jbool j "interactive")) (jbool j "liveFd") ops
       (aresJson a).setObjVal! "body" (Json.mkObj [("text", mkArr (b.1.map Json.bool)), ("raised", Json.bool b.2)])
     | _, _ => Driver.err "bad action"
-  | "cmd" =>
+  | "cmd" | "tool" =>
     match actionRes j with
     | some a => aresJson a
     | none => Driver.err "bad action"
